@@ -190,6 +190,20 @@ func c10Cases(tier string) []*space.Case {
 				fl.Comment = commentForms[(idx+shift)%len(commentForms)]
 			})
 			add(b.name, fmt.Sprintf("comments/shift%d", shift), f, c)
+			if shift < 2 || tier == "thorough" {
+				// the same with every third field excluded (by path or by Message.Field): the comments of the
+				// remaining fields must stay their own
+				f2, c2 := b.mk()
+				walkFields(f2, func(m *dsl.Message, fl *dsl.Field, idx int) {
+					fl.Comment = commentForms[(idx+shift)%len(commentForms)]
+				})
+				for i, k := range tkeys {
+					if i%3 == shift%3 {
+						c2.Exclude = append(c2.Exclude, k)
+					}
+				}
+				add(b.name, fmt.Sprintf("comments+exclusions/shift%d", shift), f2, c2)
+			}
 		}
 	}
 	// E. the same with the non-root messages declared in an imported file of the same package
